@@ -53,3 +53,58 @@ Example C04_nonvacuous :
   /\ let t' := run (init 65535 16384 65535) (firstn 10 f39_labels) in
      eligible (strms t' 1) = true /\ s_inbufs (strms t' 1) = false.
 Proof. vm_compute. repeat split. Qed.
+
+From Coq Require Import String.
+From HV Require Import lib.Bytes lib.Obs lib.Monad model.Asgi model.AsgiSpec model.GuardTypes model.HttpStream model.WsStream model.LibH11 model.H11Proto gen.Guards_gen proofs.H11_proofs.
+Open Scope string_scope.
+(* ---- HTTP/1: the connection handler terminates (finding F57).  The reader task waits inside the protocol while a
+   response is produced (h11 is PAUSED).  When the connection is then not reused - the worker is shutting down, a side
+   asked to close, the client sent CONNECT and got a 2xx - the protocol marks itself closed before it releases the
+   reader ... *)
+Theorem C04_connection_not_reused_is_closed : forall p,
+  p_ws_mode p = false -> p_stream_live p = false -> p_writes p = [] ->
+  negb (p_terminated p) && h1state_eqb (our_state (p_lib p)) DONE && h1state_eqb (their_state (p_lib p)) DONE = false ->
+  let p' := fst (fst (maybe_recycle p)) in
+  p_closed p' = true /\ p_can_read p' = true /\ p_parked p' = p_parked p.
+Proof. exact closed_after_no_reuse. Qed.
+(* ... and a released reader of a closed protocol leaves the loop without asking the parser again, whatever the parser
+   would answer (before the repair it asked, was told PAUSED again - pipelined bytes, or SWITCHED_PROTOCOL - and
+   waited for a release that never came), ... *)
+Theorem C04_closed_connection_reader_leaves : forall cfg stream_headers ws_token ws_ext ws_sends evs p,
+  p_closed p = true -> p_parked p = true -> p_can_read p = true ->
+  let '(p', o, res) := resume_if_ready cfg stream_headers ws_token ws_ext ws_sends evs p in
+  res = Ok tt /\ p_parked p' = false /\ p_closed p' = true /\ o = [ONote "reader.resumed"].
+Proof. exact closed_reader_leaves. Qed.
+(* ... and whatever the transport still delivers is dropped: the reader cannot park again. *)
+Theorem C04_closed_connection_ignores_input : forall cfg stream_headers ws_token ws_ext ws_sends evs p,
+  p_closed p = true -> proto_step cfg stream_headers ws_token ws_ext ws_sends (IData evs) p = (p, [], Ok tt).
+Proof. exact closed_ignores_input. Qed.
+Print Assumptions C04_connection_not_reused_is_closed.
+Print Assumptions C04_closed_connection_reader_leaves.
+Print Assumptions C04_closed_connection_ignores_input.
+
+(* The premises are met by the very run that used to hang: CONNECT answered 200 (both sides SWITCHED_PROTOCOL), the
+   application's body message is refused by h11, the application ends; the oracle keeps answering PAUSED.  The protocol
+   ends closed with its reader gone. *)
+Definition f57_cfg : h11cfg :=
+  {| c_http := {| cfg_server_names := []; cfg_ssl := false; cfg_trailers_versions := []; cfg_push_versions := []; cfg_hint_versions := [];
+                  cfg_guards := http_app_send_guards |};
+     c_ws := {| wc_http := {| cfg_server_names := []; cfg_ssl := false; cfg_trailers_versions := []; cfg_push_versions := [];
+                              cfg_hint_versions := []; cfg_guards := http_app_send_guards |};
+                wc_max_message := 100; wc_ping_interval := false; wc_guards := ws_app_send_guards |};
+     c_max_requests := 100; c_server_headers := [] |}.
+Fixpoint f57_final (p : h11p) (is : list pinput) : h11p :=
+  match is with
+  | [] => p
+  | i :: r => f57_final (fst (fst (proto_step f57_cfg (fun h => h) (fun _ => []) None [] i p))) r
+  end.
+Example C04_connect_nonvacuous :
+  let inputs := [IData [RH (HRequest (B "CONNECT") (B "example.com:443") [(B "host", B "example.com:443")] (B "1.1")); RH HEndOfMessage; RH HPaused];
+                 IApp (Some (MStart (Some 200%Z) [] false)) [RH HPaused];
+                 IApp None [RH HPaused; RH HPaused]] in
+  let mid := f57_final (p_init [] []) (firstn 2 inputs) in
+  let p := f57_final (p_init [] []) inputs in
+  p_parked mid = true /\ their_state (p_lib mid) = SWITCHED_PROTOCOL /\
+  p_closed p = true /\ p_parked p = false /\ p_stream_live p = false /\
+  f57_final p [IData [RH HPaused]] = p.
+Proof. vm_compute. repeat split. Qed.
